@@ -186,3 +186,49 @@ def flat_conds(conds) -> set:
         else:
             out.add((c, pol))
     return out
+
+
+IMMEDIATE_CONSUMERS = {"sorted", "min", "max", "sort", "reduce", "next", "sum", "any", "all"}
+
+
+def late_bound_closures(f: FuncInfo) -> list:
+    """[(closure node, loop node, variable)]: a lambda / nested def created inside a loop body that reads a variable the loop
+    assigns (its target, or a name assigned in the body) as a *free* variable.  Python binds free variables late: once the
+    loop has moved on, every closure created in it sees the value of the last iteration.  Closures that are called or consumed
+    inside the same iteration (direct call, key= of sorted/min/max ...) and closures that capture the value through a default
+    argument (`lambda x=x: ...`) are not reported."""
+    out = []
+    parents = {ch: pa for pa in ast.walk(f.node) for ch in ast.iter_child_nodes(pa)}
+    for L in ast.walk(f.node):
+        if not isinstance(L, (ast.For, ast.While, ast.AsyncFor)):
+            continue
+        loopvars = set()
+        if not isinstance(L, ast.While):
+            loopvars |= {n.id for n in ast.walk(L.target) if isinstance(n, ast.Name)}
+        for st in L.body:
+            for n in ast.walk(st):
+                if isinstance(n, ast.Name) and isinstance(n.ctx, ast.Store):
+                    loopvars.add(n.id)
+                elif isinstance(n, (ast.FunctionDef, ast.AsyncFunctionDef)):
+                    loopvars.add(n.name)
+        for st in L.body:
+            for c in ast.walk(st):
+                if not isinstance(c, (ast.Lambda, ast.FunctionDef, ast.AsyncFunctionDef)):
+                    continue
+                a = c.args
+                own = {x.arg for x in a.posonlyargs + a.args + a.kwonlyargs} | ({a.vararg.arg} if a.vararg else set()) | ({a.kwarg.arg} if a.kwarg else set())
+                body = [c.body] if isinstance(c, ast.Lambda) else c.body
+                bound = own | {n.id for b in body for n in ast.walk(b) if isinstance(n, ast.Name) and isinstance(n.ctx, ast.Store)}
+                free = {n.id for b in body for n in ast.walk(b) if isinstance(n, ast.Name) and isinstance(n.ctx, ast.Load)} - bound
+                hit = sorted(free & loopvars - ({c.name} if not isinstance(c, ast.Lambda) else set()))
+                if not hit:
+                    continue
+                pa = parents.get(c)
+                if isinstance(pa, ast.Call) and pa.func is c:
+                    continue  # (lambda: ...)() -- called on the spot
+                if isinstance(pa, ast.keyword) and pa.arg == "key":
+                    continue
+                if isinstance(pa, ast.Call) and c in pa.args and (getattr(pa.func, "id", None) or getattr(pa.func, "attr", None)) in IMMEDIATE_CONSUMERS:
+                    continue
+                out.append((c, L, hit[0]))
+    return out
